@@ -16,6 +16,8 @@ NAME_SETS = {
     # four-character site codes that also occur inside the block headers / comment lines of the format ('+SOLUTION/ESTIMATE'[14:18]
     # is 'MATE' - Matera, a real station; '*INDEX TYPE__ CODE ...'): a code is a code only in the code column of a data line
     'keywords': ['MATE', 'CODE', 'SITE', 'SOLU', 'ESTI', 'EPOC', 'ENDS', 'TYPE', 'SOLN', 'UNIT'],
+    # codes are compared as written: lower / mixed case, digits only, pairs that differ in case only
+    'mixedcase': ['ALIC', 'alic', 'Bro1', 'DARW', 'darw', 'h0b2', '0001', 'KARR', 'karr', 'mObS'],
 }
 _NAMES = [None]
 
